@@ -11,7 +11,7 @@ COMPS = [
     V.Component("poolalloc", monitors=MON),
     V.Component("epoch", monitors=MON_EPOCH),
     # DistributedAllocator.Stats: the utilisation figure (its unit depends on the pool mode: KF-util-units)
-    V.Component("dist", monitors=["utilisation"]),
+    V.Component("dist", monitors=["utilisation", "reclaimed"]),
     V.Component("bitmap", monitors=MON),
     # the five free-list pools (one generic Lean model, Bng.FreeList)
     V.Component("dhcppool", monitors=MON),
